@@ -10,12 +10,16 @@ from common import Model, hx, exc_name
 from sims import t34_lib as T
 from sims.t34_sims import EmuLink, t3_attr
 
-LEAN_TARGETS = ["NfcVerif.Props.C02T34", "drv_t34"]
+LEAN_TARGETS = ["NfcVerif.Props.C02T34", "drv_t34", "drv_c02"]
 
 THEOREMS = [
     "NfcVerif.C02T34.t3_cut_safe",
     "NfcVerif.C02T34.t4_cut_safe",
     "NfcVerif.C02T34.t4_cut_counterexample_small_mlc",
+    "NfcVerif.C02T34.t3_retry_cut_safe",
+    "NfcVerif.C02T34.t3_history_cut_safe",
+    "NfcVerif.C02T34.t4_retry_cut_safe",
+    "NfcVerif.C02T34.t4_history_cut_safe",
 ]
 
 
@@ -89,6 +93,15 @@ def run_part(ck):
     stale_object_cuts(ck, lays, var, jobs)
     T.compare(ck, model, jobs, "t34-cut-model-vs-nfcpy")
     emu_cuts(ck)
+    try:
+        histories34(ck, lays, var)
+    except Exception as e:  # noqa  nfcpy returned / raised something the oracle code did not foresee
+        from common import Infra
+        if isinstance(e, Infra):
+            raise
+        import traceback
+        ck.fail("t34-history-unexpected-behaviour", "exploring histories ended with %s: %s"
+                % (exc_name(e), traceback.format_exc().strip().split("\n")[-3:]), {"seed": ck.seed})
 
 
 def pick(rng, total, limit):
@@ -256,3 +269,115 @@ def emu_cuts(ck):
                 ck.fail("t3emu-cut-" + cls, "cut %d/%d: %s" % (k, total, line[:90]),
                         {"emulated": True, "nbr": nbr, "nbw": nbw, "nmaxb": nmaxb, "old": old.hex(), "new": new.hex(), "cut": k})
             ck.case(("emu", nbr, nbw, nmaxb, old, new, k), 0 < k < total, "t3emu:" + cls)
+
+
+def judge34(ck, h, lay):
+    """C02 on the real code, attempt by attempt: after attempt i a fresh reader sees what it saw before the attempt,
+    no NDEF, a not-readable area, an empty message or exactly the octets of attempt i; a completed attempt is read
+    back; a triggered fault is reported as TagCommandError"""
+    from sims.c02_hist import describe
+    kind = h.kind
+    fam = "t3emu" if kind == "emu" else kind
+    small_mlc = kind == "t4" and lay.mlc < lay.nl
+    before = h.old
+    for i, ((data, fault), res, view) in enumerate(zip(h.attempts, h.results, h.views)):
+        where = "%s: %s" % (kind, describe(h))
+        trig = fault is not None and h.triggered[i]
+        if trig and res == "ok":
+            ck.fail(fam + "-failed-command-not-reported", where + ": attempt %d returned normally although command %d "
+                    "failed" % (i, fault[0]), h.replay())
+            return
+        if res.startswith("exc") and not (len(data) > h.cap and res == "exc ValueError"):
+            key = fam + "-retry-raises"
+            if kind == "t3" and res == "exc ValueError" and lay.nbw == 13 and lay.nmaxb > 255:
+                return   # finding of C01 (t3-nbw13-3byte-blocklist-valueerror): no command was sent
+            ck.fail(key, where + ": attempt %d raised %s" % (i, res[4:]), h.replay())
+            return
+        if not trig and len(data) <= h.cap and res != "ok":
+            ck.fail(fam + "-retry-raises", where + ": attempt %d (no fault triggered) ended %s" % (i, res), h.replay())
+            return
+        line = view[0]
+        cls = T.classify(line, before if before is not None else b"\x00impossible", data)
+        if cls == "raises":
+            ck.fail(fam + "-cut-reader-raises", where + ": after attempt %d a fresh reader raises %s" % (i, line), h.replay())
+            return
+        bad = cls == "corrupt" or (res == "ok" and cls != "new") or (cls == "new" and len(data) > h.cap)
+        if bad:
+            key = "t4-torn-nlen-mlc-below-nlen-size" if small_mlc else fam + "-history-corrupt"
+            ck.fail(key, where + ": after attempt %d a fresh reader sees %s - neither what was there before the attempt, nor "
+                    "no NDEF / not readable / empty, nor the octets of the attempt" % (i, line[:90]), h.replay())
+            return
+        before = view[1] if cls not in ("none", "not-readable") else None
+
+
+def histories34(ck, lays, var):
+    """histories of assignments through ONE tag object with faults of both kinds at every command position, compared
+    with the models Hist.t3History / Hist.t4History (driver drv_c02) after every attempt"""
+    from sims.c02_hist import HistRun, MODES
+    rng = ck.rng
+    model = Model("drv_c02")
+    limit = 30 if ck.thorough else 6
+    n3, n4 = (12, 14) if ck.thorough else (3, 4)
+    pool3 = [lay for lay in lays if lay.kind == "t3" and not (lay.nbw == 13 and lay.nmaxb > 255)]
+    pool4 = [lay for lay in lays if lay.kind == "t4" and lay.mfs <= 1000]
+    small = [lay for lay in pool4 if lay.mlc < lay.nl][:1]
+    chosen = [("t3", x) for x in rng.sample(pool3, min(n3, len(pool3)))]
+    chosen += [("t4", x) for x in rng.sample([y for y in pool4 if y.mlc >= y.nl], min(n4, len(pool4)))] + [("t4", x) for x in small]
+    for nmaxb in ([1, 2, 13, 40] if ck.thorough else [2, 13]):
+        nbr, nbw = rng.randrange(1, 16), rng.randrange(1, 13)
+        old = T.rbytes(rng, rng.choice([0, 16 * nmaxb, rng.randrange(16 * nmaxb + 1)]), 1)
+        chosen.append(("emu", T.L3(nbr, nbw, nmaxb, old, T.rbytes(rng, 16 * (nmaxb + 1), 1))))
+    hs = []
+
+    def add(h, lay, bucket):
+        hs.append(h)
+        if h.obj.nd is None:
+            return
+        ck.case(("hist", h.kind, h.base, tuple(h.attempts)), any(h.triggered), bucket)
+        judge34(ck, h, lay)
+
+    for kind, lay in chosen:
+        probe = HistRun(kind, lay, [(b"\x01", None)])
+        if probe.obj.nd is None:
+            continue
+        cap, old = probe.cap, probe.old
+        if cap < 1:
+            continue
+        lens = sorted(set(n for n in [rng.randrange(1, 9), min(cap, rng.choice([17, 33, 47])), min(cap, 300), cap] if 1 <= n <= min(cap, 600)))
+        if not ck.thorough and len(lens) > 2:
+            lens = [lens[0], rng.choice(lens[1:])]
+        for n1 in lens:
+            d1 = T.rbytes(rng, n1, 1)
+            clean = HistRun(kind, lay, [(d1, None)])
+            add(clean, lay, "hist:%s:clean" % kind)
+            if clean.results != ["ok"]:
+                continue
+            ncmd = clean.ncmds[0]
+            ks = list(range(ncmd)) if ncmd <= limit else sorted(set([0, 1, ncmd - 2, ncmd - 1] + rng.sample(range(ncmd), limit - 4)))
+            other = bytes((b + 1) & 255 or 1 for b in d1)
+            pool = [d1, b"", old[:cap], other, T.rbytes(rng, max(0, min(cap, n1 + rng.choice([-1, 1, 16, -16]))), 1),
+                    T.rbytes(rng, min(cap, 600), 1)]
+            for k in ks:
+                for mi, mode in enumerate(MODES[kind]):
+                    d2 = pool[(k + mi) % len(pool)]
+                    add(HistRun(kind, lay, [(d1, (k, mode)), (d2, None)]), lay, "hist:%s:1-fault:%s" % (kind, mode))
+                    m2 = rng.choice(MODES[kind])
+                    add(HistRun(kind, lay, [(d1, (k, mode)), (d2, (rng.randrange(0, 4), m2)), (rng.choice(pool), None)]), lay,
+                        "hist:%s:2-faults:%s+%s" % (kind, mode, m2))
+            for _ in range(6 if ck.thorough else 2):
+                atts, d = [], d1
+                for _i in range(rng.choice([2, 3, 4])):
+                    atts.append((d, (rng.randrange(0, max(1, ncmd)), rng.choice(MODES[kind]))))
+                    d = rng.choice(pool)
+                if rng.random() < 0.6:
+                    atts.append((d, None))
+                add(HistRun(kind, lay, atts), lay, "hist:%s:%d-faults" % (kind, len(atts)))
+    replies = model.ask_many([h.request(var) for h in hs])
+    dis = 0
+    for h, r in zip(hs, replies):
+        if r != h.line:
+            dis += 1
+            ck.fail("tie:t34-history-model-vs-nfcpy", "%s: model %r, implementation %r" % (h.kind, r[-300:], h.line[-300:]),
+                    dict(h.replay(), request=h.request(var)[:3000], model=r[:3000], impl=h.line[:3000]))
+    ck.tie("Hist model vs tt3/tt4/emulated Type 3: assignments through one tag object with faults of both kinds - outcome, "
+           "ordered commands and the fresh reader's view after EVERY attempt", len(hs), dis, False)
